@@ -51,6 +51,8 @@ class Record(object):
         self.processes = []
         self.flag_dir = pathlib.Path(flag_dir)
         self._frozen = None
+        self.orphan_wrote = False
+        self.forced_state = {}
 
     def flag(self, name):
         return self.flag_dir / name
@@ -59,6 +61,7 @@ class Record(object):
         """remember the flags before the flag directory is removed"""
         self._frozen = (self.flag('fired').exists(),
                         len(list(self.flag_dir.glob('gate_timeout_*'))))
+        self.orphan_wrote = self.flag('orphan_wrote').exists()
 
     @property
     def fired(self):
@@ -97,6 +100,9 @@ def _child_entry(index, target, args, kwargs, plan, rec):
     if gate is not None:
         from ctmverif import schedules
         return schedules.gated_call(index, target, args, kwargs, gate, rec)
+    orphan = plan.get('orphan')
+    if orphan is not None:
+        return _orphan_child(index, target, args, kwargs, orphan, rec)
     fault = plan.get('fault')
     if fault is None or fault['index'] != index:
         return target(*args, **kwargs)
@@ -120,6 +126,80 @@ def _child_entry(index, target, args, kwargs, plan, rec):
         setattr(mod, attr, hooked)
         return target(*args, **kwargs)
     raise ValueError(point)
+
+
+def _wait_byte(fd, seconds):
+    import select
+    r, _, _ = select.select([fd], [], [], seconds)
+    if not r:
+        return None
+    return os.read(fd, 1)
+
+
+def _orphan_child(index, target, args, kwargs, orphan, rec):
+    """worker `crash` dies at once; worker `writer` does its work but holds
+    back the publication of its result (the call of `hook`) until the parent
+    is about to remove the directory it publishes into"""
+    if index == orphan['crash']:
+        _die('exit', rec)
+    if index != orphan['writer']:
+        return target(*args, **kwargs)
+    mod = importlib.import_module(orphan['hook'][0])
+    orig = getattr(mod, orphan['hook'][1])
+
+    def held(*a, **k):
+        got = _wait_byte(orphan['go'][0], 20)
+        if got is None:
+            rec.flag('gate_timeout_writer').write_text('x')
+        try:
+            return orig(*a, **k)
+        finally:
+            rec.flag('orphan_wrote').write_text('x')
+            os.write(orphan['done'][1], b'x')
+    setattr(mod, orphan['hook'][1], held)
+    return target(*args, **kwargs)
+
+
+@contextlib.contextmanager
+def orphan_writes_during_cleanup(stage, crash, writer, hook,
+                                 dir_prefix='results_buffer_'):
+    """Forced interleaving: worker `crash` exits with code 3 before its work;
+    the surviving sibling `writer` publishes its result exactly when the
+    parent, cleaning up after the failure, has listed the directory
+    `dir_prefix*` and is about to `rmdir` it.  The real clean-up code runs
+    unmodified; `pathlib.Path.rmdir` is only delayed until the sibling has
+    written.  Yields the Record (`rec.forced` tells whether the interleaving
+    was actually produced)."""
+    go = os.pipe()
+    done = os.pipe()
+    plan = {'orphan': {'crash': crash, 'writer': writer, 'hook': hook,
+                       'go': go, 'done': done}}
+    real_rmdir = pathlib.Path.rmdir
+    state = {'forced': False}
+
+    def rmdir(self):
+        if self.name.startswith(dir_prefix) and not state['forced']:
+            state['forced'] = True
+            os.write(go[1], b'x')
+            _wait_byte(done[0], 5)
+        return real_rmdir(self)
+    pathlib.Path.rmdir = rmdir
+    try:
+        with instrument(stage, plan) as rec:
+            rec.forced_state = state
+            yield rec
+    finally:
+        pathlib.Path.rmdir = real_rmdir
+        # release a writer that is still waiting
+        try:
+            os.write(go[1], b'x')
+        except OSError:
+            pass
+        for fd in go + done:
+            try:
+                os.close(fd)
+            except OSError:
+                pass
 
 
 class _Shim(object):
